@@ -5,6 +5,7 @@ FitInfoFile.write from hand-built FitInfo records of different sizes; *every*
 truncation offset 0..len-1 is materialised and read back with the real reader,
 consuming the iterator one record at a time.
 """
+import hashlib
 import itertools
 import os
 import pickle
@@ -65,7 +66,7 @@ def setup(tier, seed):
         fo.write(_record('f0', 0, _meta(d)))
         fo.close()
         data = open(p, 'rb').read()
-        meta_end = _boundaries(data)[2]
+        meta_end = _first_openable(data, os.path.join(d, 'probe.fitinfo'))
         meta_sha = hashlib.sha1(data[:meta_end]).hexdigest()
     return {'tier': tier, 'seed': seed, 'files': files, 'kinds': kinds, 'meta_sha': meta_sha, 'meta_end': meta_end}
 
@@ -120,6 +121,43 @@ def _record(kind, idx, meta):
     return i
 
 
+def _first_openable(data, path):
+    """Smallest truncation offset at which the real reader opens the file without raising:
+    the point where the shared metadata is completely on disk.  Found by scanning (no knowledge
+    of the file format)."""
+    from sedfitter.fit_info import FitInfoFile
+    for t in range(0, len(data) + 1):
+        with open(path, 'wb') as f:
+            f.write(data[:t])
+        try:
+            fin = FitInfoFile(path, 'r')
+        except Exception:
+            continue
+        fin.close()
+        return t
+    return len(data)
+
+
+def _record_ends(records, d, data):
+    """Offsets at which each record is completely on disk, obtained with the real writer only:
+    size of the file holding the first k records, provided that file is a byte prefix of the
+    full file (append-only stream).  Returns None when the format is not append-only (then the
+    boundary classes cannot be assigned)."""
+    from sedfitter.fit_info import FitInfoFile
+    ends = []
+    for k in range(1, len(records) + 1):
+        p = os.path.join(d, 'prefix%d.fitinfo' % k)
+        fo = FitInfoFile(p, 'w')
+        for r in records[:k]:
+            fo.write(r)
+        fo.close()
+        b = open(p, 'rb').read()
+        if data[:len(b)] != b:
+            return None
+        ends.append(len(b))
+    return ends
+
+
 def _boundaries(data):
     """Offsets at which each top-level pickle ends (harness-side, independent of the reader)."""
     import io
@@ -158,20 +196,33 @@ def run_case(ctx, case, rec, d):
         fout.write(r)
     fout.close()
     data = open(path, 'rb').read()
-    ends = _boundaries(data)          # 3 metadata pickles, then one per record
-    assert len(ends) == 3 + len(records), (len(ends), len(records))
-    meta_end = ends[2]
-    rec_ends = ends[3:]
+    rec_ends = _record_ends(records, d, data)
+    if rec_ends is None:
+        rec.notes['file-format-not-append-only'] += 1
+        rec_ends = []
+    tpath0 = os.path.join(d, 'probe.fitinfo')
+    meta_end = ctx['meta_end'] if hashlib.sha1(data[:ctx['meta_end']]).hexdigest() == ctx['meta_sha'] else _first_openable(data, tpath0)
     payload = _numpy_payload_ranges(data)
     rec.sample({'record_kinds': case['seq'], 'file_bytes': len(data), 'metadata_end': meta_end, 'record_ends': rec_ends,
                 'offsets_explored': '0..%d' % len(data)})
     tpath = os.path.join(d, 'cut.fitinfo')
-    import hashlib
     start = 0
     if case['file'] != 0 and meta_end == ctx['meta_end'] and hashlib.sha1(data[:meta_end]).hexdigest() == ctx['meta_sha']:
         start = meta_end - 16         # same bytes as file 0 below this offset: already explored there
         rec.notes['metadata-offsets-shared-with-file-0'] += start
-    for t in range(start, len(data) + 1):
+    # a decoy: another complete file (different records) is written to the very path the truncated
+    # files will use and is read completely first -- the reader must depend on the current bytes only
+    decoy = [_record(k, 50 + i, meta) for i, k in enumerate(reversed(case['seq']))]
+    fo = FitInfoFile(tpath, 'w')
+    for r in decoy:
+        fo.write(r)
+    fo.close()
+    fin = FitInfoFile(tpath, 'r')
+    n_decoy = sum(1 for _ in fin)
+    fin.close()
+    if n_decoy != len(decoy):
+        rec.violation('complete-read|count', {'decoy': True}, {'read': n_decoy, 'written': len(decoy)})
+    for t in [len(data)] + list(range(start, len(data))):
         with open(tpath, 'wb') as f:
             f.write(data[:t])
         complete = sum(1 for e in rec_ends if e <= t)
@@ -224,6 +275,8 @@ def run_case(ctx, case, rec, d):
                 bad = 'records carry metadata that differs from the written metadata'
             elif fin is not None and how == 'clean-end' and got_meta != meta_canon:
                 bad = 'file opened with metadata that differs from the written metadata'
+            elif rec_ends and len(got) > complete:
+                bad = 'yielded %d records although only %d were completely on disk at this offset' % (len(got), complete)
             elif t == len(data) and (how != 'clean-end' or len(got) != len(records)):
                 bad = 'complete file did not yield all records (%s, %d of %d)' % (how, len(got), len(records))
         if bad:
@@ -253,5 +306,3 @@ def run_case(ctx, case, rec, d):
             rec.cls('clean-end-after-prefix')
         if got and len(got) < len(records):
             rec.cls('yields-some-then-raises-or-ends')
-        if len(got) > complete:
-            rec.notes['yielded-more-than-complete-on-disk'] += 1
